@@ -31,7 +31,7 @@ RULE = (
     'distinct = (loader, fault kind, prefix length / garbage bytes).'
 )
 RULE += ' Added in rounds 7-10: digit-shift and checksum-collision argument variants; foreign cache-like files (<stem>.cache of another load, stale .tmp) next to the sources.'
-RULE += ' Round 12: to_cache / from_cache round trip of hand-built trajectories (unwrapped raw coordinates with values exactly 0, 1, -1, 2, 1-2^-53, in position form and in displacement form with whole-lattice-vector steps). Round 14: argument variants whose temperature differs by a fraction of a kelvin. Round 13: explicit cache paths with arbitrary suffixes (.v1/.v2, .0/.5, .pkl, none): files appear at exactly the requested paths and names differing in the last dotted part stay distinct.'
+RULE += ' Round 12: to_cache / from_cache round trip of hand-built trajectories (unwrapped raw coordinates with values exactly 0, 1, -1, 2, 1-2^-53, in position form and in displacement form with whole-lattice-vector steps). Round 16: three of twelve configurations are single-frame sources. Round 14: argument variants whose temperature differs by a fraction of a kelvin. Round 13: explicit cache paths with arbitrary suffixes (.v1/.v2, .0/.5, .pkl, none): files appear at exactly the requested paths and names differing in the last dotted part stay distinct.'
 ASSUMPTIONS = [
     'synthetic loader inputs exercise the loaders\' control flow, not the variety of real simulation output',
     'garbage that happens to be a loadable pickle of some other object is outside the statement ("unreadable") and is skipped and counted',
@@ -130,7 +130,7 @@ def same(a, b):
 class Config:
     """One loader + argument set on freshly written synthetic files."""
 
-    def __init__(self, rng, d, loader):
+    def __init__(self, rng, d, loader, single_frame=False):
         from gemdat import Trajectory
 
         self.T = Trajectory
@@ -138,6 +138,8 @@ class Config:
         self.d = d
         N = int(rng.integers(2, 6))
         T = int(rng.integers(3, 9))
+        if single_frame:
+            T = 1  # a source holding a single configuration (a relaxed structure, the first dump of a run)
         symbols = [str(x) for x in rng.choice(['Li', 'S', 'P', 'O'], size=N)]
         if 'Li' not in symbols:
             symbols[0] = 'Li'
@@ -265,10 +267,15 @@ def run_unit(unit, rng, ctx):
 
 
 def _run_cfg(unit, rng, ctx, loader, d):
-    cfg = Config(rng, d, loader)
+    single = unit['i'] % 12 in (3, 7, 11)
+    cfg = Config(rng, d, loader, single_frame=single)
+    ctx.count('single_frame_sources', single)
     T = cfg.T
     what = f'{loader} {cfg.kw} explicit_cache={cfg.explicit_cache}'
     fresh, _ = quiet(cfg.call, cache=os.path.join(d, 'fresh.cache'))
+    if not ctx.check(os.path.isfile(os.path.join(d, 'fresh.cache')), f'{what}: a load with cache=fresh.cache left no cache file behind ({len(fresh) if hasattr(fresh, "__len__") else "?"} frame(s) in the source)'):
+        ctx.case(None, False)
+        return
     os.unlink(os.path.join(d, 'fresh.cache'))
     cache_arg = os.path.join(d, 'my.cache') if cfg.explicit_cache else None
     # first load writes the cache
